@@ -1140,6 +1140,10 @@ func genC17Q(c *Ctx) {
 }
 
 func genC17(c *Ctx) {
+	// run.go seeds splitmix64 with seed*gamma: the stream of seed k+1 is the stream of seed k advanced by one draw, and
+	// generators whose consumption depends on the data re-synchronise after a few cases.  Re-seeding from one MIXED
+	// output (still a function of VERIF_SEED only) gives unrelated streams for neighbouring seeds.
+	c.Rng = NewRng(c.Rng.Next())
 	genC17D(c)
 	genC17Q(c)
 	genC17M(c)
